@@ -482,6 +482,11 @@ func init() {
 // ---- more families -----------------------------------------------------
 
 func (g *sgen) simpleReq(sid uint32, method string, body []byte, extra ...kv) {
+	if g.p.chance(1, 3) {
+		// the handler starts on its response (installs a body stream) before it is told how to finish: until it
+		// returns the response is the handler's alone
+		extra = append(append([]kv(nil), extra...), kv{k: "x-early", v: "1"})
+	}
 	r := reqGen{sid: sid, method: method, scheme: "https", path: "/", auth: "a", fields: extra, body: body}
 	for _, u := range g.requestUnits(r, render{padHdr: -1, padData: -1}) {
 		for _, fr := range u() {
